@@ -5,3 +5,8 @@ import IOptProps.C07
 import IOptProps.C08
 import IOptProps.C03
 import IOptProps.C19
+import IOptProps.C11
+import IOptProps.C02
+import IOptProps.C06
+import IOptProps.C04
+import IOptProps.C16
